@@ -81,6 +81,16 @@ def run_case(ctx, kind_, idx):
             if h in ("oversample_linspace", "oversample_piecewise_constant"):
                 a = arr(rng)
                 n = int(rng.integers(1, 17))
+                if rng.integers(0, 12) == 0 and len(a) >= 2:
+                    # "keeps every original element": also a negative zero (bit for bit) and an element next to an
+                    # infinite one (start + 0 * step is not the start when step is infinite)
+                    a = np.asarray(a, dtype=float).copy()
+                    if rng.integers(0, 2):
+                        a[int(rng.integers(0, len(a)))] = -0.0
+                        info["negative_zero"] = True
+                    else:
+                        a[int(rng.integers(0, len(a)))] = [np.inf, -np.inf][int(rng.integers(0, 2))]
+                        info["infinite_element"] = True
                 ain = a if rng.integers(0, 2) else (np.array(a) if h == "oversample_piecewise_constant" else a)
                 n_arg, nt = gen.count_arg(rng, n)
                 info.update({"a": a if len(a) <= 10 else len(a), "n": n, "n_type": nt})
@@ -91,6 +101,11 @@ def run_case(ctx, kind_, idx):
                     return fail("length", got=len(got))
                 if n >= 2 and not np.array_equal(np.asarray(got, float)[::n], np.asarray(a, float)):
                     return fail("nth_element_not_original", got=got)
+                if n >= 2 and not np.array_equal(np.signbit(np.asarray(got, float)[::n]), np.signbit(np.asarray(a, float))):
+                    return fail("nth_element_not_original_sign_of_zero", got=got)
+                if info.get("infinite_element"):
+                    ctx.nontriv("c17", idx)
+                    return          # the fill values between a finite and an infinite element are not specified
                 if h == "oversample_piecewise_constant":
                     if not np.array_equal(np.asarray(got, float), np.asarray(want, float)):
                         return fail("fill_not_left_value", got=got)
@@ -154,17 +169,25 @@ def run_case(ctx, kind_, idx):
                 x = arr(rng, 2, 50, increasing=True)
                 y = arr(rng, len(x), len(x))
                 yf = np.asarray(y, dtype=float)
+                xin, yin = x, yf
+                if rng.integers(0, 6) == 0:
+                    # 32-bit integer columns: seconds and counters whose products (value x step) and neighbour sums do
+                    # not fit 32 bits although every value does
+                    x = (1_700_000_000 + np.cumsum(rng.choice([60, 300, 900, 3600], len(x)))).astype(float)
+                    yf = rng.integers(10 ** 6, 2 ** 31 - 1, len(x)).astype(float)
+                    xin, yin = x.astype(np.int32), yf.astype(np.int32)
+                    info["int32_columns"] = True
                 info.update({"x": x if len(x) <= 10 else len(x), "y": y if len(y) <= 10 else None})
                 mag = float(np.max(np.abs(yf))) * float(np.max(np.diff(x)))
-                r = U.rectangle_integral(x, yf)
-                t = U.trapezoid_integral(x, yf)
+                r = U.rectangle_integral(xin, yin)
+                t = U.trapezoid_integral(xin, yin)
                 xl, yl = [float(v) for v in x], [float(v) for v in yf]
                 if not same(r, H.rectangle(xl, yl), mag):
                     return fail("rectangle", got=r)
                 if not same(t, H.trapezoid(xl, yl), mag):
                     return fail("trapezoid", got=t)
-                if not (np.array_equal(U.integral(x, yf, "rectangle"), r) and np.array_equal(U.integral(x, yf, "trapezoid"), t)
-                        and np.array_equal(U.integral(x, yf), t)):
+                if not (np.array_equal(U.integral(xin, yin, "rectangle"), r) and np.array_equal(U.integral(xin, yin, "trapezoid"), t)
+                        and np.array_equal(U.integral(xin, yin), t)):
                     return fail("dispatcher")
                 ctx.nontriv("c17", idx)
             elif h == "sum_over_indices":
@@ -190,26 +213,27 @@ def run_case(ctx, kind_, idx):
                         return fail("default_interval_size_is_not_one")
                 flat = int(rng.integers(0, len(a)))
                 i, j = divmod(flat, n)
+                T = lambda v: gen.index_arg(rng, v)         # noqa: E731 - indices as Python ints or NumPy integer scalars
                 info.update({"len": len(a), "n": n, "i": i, "j": j})
-                if float(ia[i, j]) != float(a[flat]) or float(ia[flat]) != float(a[flat]):
+                if float(ia[T(i), T(j)]) != float(a[flat]) or float(ia[T(flat)]) != float(a[flat]):
                     return fail("read", got=float(ia[i, j]), want=float(a[flat]))
                 # out-of-interval element offsets reach into neighbouring intervals (used by the strategies)
-                if flat - n >= 0 and float(ia[i, j - n]) != float(a[flat - n]):
+                if flat - n >= 0 and float(ia[T(i), T(j - n)]) != float(a[flat - n]):
                     return fail("read_negative_offset")
                 d = int(rng.integers(-1, 2))          # the same element addressed from a neighbouring interval
                 i2, j2 = i - d, j + d * n
                 if i2 < 0:
                     i2, j2 = i, j
                 info.update({"i_write": i2, "j_write": j2})
-                if float(ia[i2, j2]) != float(a[flat]):
+                if float(ia[T(i2), T(j2)]) != float(a[flat]):
                     return fail("read_offset_form", got=float(ia[i2, j2]), want=float(a[flat]))
-                ia[i2, j2] = 12345.5
+                ia[T(i2), T(j2)] = 12345.5
                 b = a.copy()
                 b[flat] = 12345.5
                 if not np.array_equal(ia.array, b):
                     return fail("write", got=ia.array, want=b)
                 flat2 = int(rng.integers(0, len(a)))
-                ia[flat2] = -7.25
+                ia[T(flat2)] = -7.25
                 b[flat2] = -7.25
                 if not np.array_equal(ia.array, b) or len(ia) != len(a) or ia.nr_of_full_intervals() != len(a) // n:
                     return fail("flat_write_or_len")
@@ -341,6 +365,14 @@ def run_case(ctx, kind_, idx):
                         y[int(q)] = [np.inf, -np.inf][int(rng.integers(0, 2))]
                     info["infinite_values"] = True
                     ctx.count("average:infinite_values")
+                elif rng.integers(0, 8) == 0 and m > n:
+                    # a gap in the measurements covering whole blocks: a block without any sample has no mean (NaN),
+                    # it does not average to a number
+                    y = np.asarray(y, dtype=float).copy()
+                    b = int(rng.integers(0, (m + n - 1) // n))
+                    y[b * n:(b + 1) * n] = np.nan
+                    info["missing_block"] = b
+                    ctx.count("average:missing_block")
                 gx, gy = callform.call(rng, average, "process.average",
                                        [x if rng.integers(0, 2) else list(x), y if rng.integers(0, 2) else list(y), n_arg])
                 wx, wy = H.average(list(x), [float(v) for v in y], n)
